@@ -319,7 +319,12 @@ def run(ctx):
                         fl = [p['f'] for p in st['lhs']['p'] if isinstance(p, dict) and 'f' in p]
                         if fl == [fld] and st['lhs']['l'] == 1 and const_val(f.rvalue(st['rv'], (bi, i_))) == 0:
                             resets.append(bi)
-                uses = [b for b, t in f.calls(r'HashSet::<[^>]*>::insert$|Vec::<[^>]*>::push$') if any(x == rv for x in walk(f.argv(b, 1))) or fld in short(f.argv(b, 1))]
+                # ... or the accumulator is moved out and left at its default in one step: std::mem::take(&mut self.<fld>) (0 for an integer)
+                for bi, t_ in f.calls(r'^std::mem::take$|^core::mem::take$'):
+                    if short(f.argv(bi, 0)).endswith('.' + fld) or short(f.arg(bi, 0)).endswith('.' + fld):
+                        resets.append(bi)
+                uses = [b for b, t in f.calls(r'HashSet::<[^>]*>::insert$|Vec::<[^>]*>::push$') if any(x == rv for x in walk(f.argv(b, 1))) or fld in short(f.argv(b, 1))
+                        or any(is_call(x, r'mem::take$') and fld in short(x) for x in walk(f.argv(b, 1)))]
                 rets = f.return_blocks()
                 ok = bool(done) and bool(resets) and bool(uses)
                 for (_, s_) in done:
